@@ -592,7 +592,7 @@ func init() {
 	register(&PropDef{
 		ID: "C07", Level: "exploration", Engine: "fedsim",
 		Rule: rule + "oracle = per-task trace automaton (no Database/Transport/side-effect callback before authentication succeeded and, for inbox POSTs, before the block check passed) plus 'non-ActivityPub => not handled, nothing touched' and 'disabled protocol => application never consulted'. distinct = distinct event sequences.",
-		QuickCases: 3000, QuickBudgetS: 60, ThoroughBudgetS: 600,
+		QuickCases: 8000, QuickBudgetS: 150, ThoroughBudgetS: 600,
 		Drive: func(c *DriveCtx, r *Rng, k int) {
 			if k%6 == 5 {
 				c.Exec(genCustom(r, "C07", k))
@@ -608,7 +608,7 @@ func init() {
 	register(&PropDef{
 		ID: "C10", Level: "fault_enumeration", Engine: "fedsim",
 		Rule: rule + "and, for every scenario of the side-effect corpus, the fault-free run plus one run per fallible seam call failing (complete single-fault sweep); oracle = counting ResponseWriter + (handled, err): exactly one of {not handled, nothing written; handled, error, nothing written by the library; handled, nil, exactly one status} and the status table of the statement.",
-		QuickCases: 2000 + len(cp), QuickBudgetS: 60, ThoroughBudgetS: 600, Exhaustive: false,
+		QuickCases: 5000 + len(cp), QuickBudgetS: 150, ThoroughBudgetS: 600, Exhaustive: false,
 		Drive: func(c *DriveCtx, r *Rng, k int) {
 			if k < len(cp) {
 				c.singleFaultSweep(cp[k].Make, faultKindFor)
